@@ -241,12 +241,15 @@ def judge_single(scan, k):
 
 
 def judge_restart(scan_before, scan_after, k, k2):
-    """restarted run (run 2) crashed while dumping its step k2 into the directory left by a crash in dump k of run 1"""
+    """restarted run (run 2) crashed while dumping its step k2 into the directory left by a crash in dump k of run 1.
+    From its second dump on the restarted run is held to the single-run rule.  During its first dump a complete file must
+    survive if the first crash was guaranteed to leave one (k >= 2) - a file of the earlier run or the new run's step 1;
+    after a crash in the very first dump of run 1 nothing was promised, so nothing is demanded."""
     res = results_of(scan_after)
     if k2 >= 2:
         return True, any(run == 2 and step in (k2, k2 - 1) for run, step in res)
     had = any(run == 1 for run, step in results_of(scan_before))
-    if not had:
+    if k < 2 or not had:
         return False, True
     return True, any((run == 2 and step == 1) or run == 1 for run, step in res)
 
